@@ -602,7 +602,8 @@ def check_rmse(desc, ctx):
 # =====================================================================================================================
 # bounds in force
 # =====================================================================================================================
-BOUND_MODELS = WELL_POSED + ("Quadratic", "GAB")
+# Virial has its own fit routine with its own handling of bounds: included (twice, for weight)
+BOUND_MODELS = WELL_POSED + ("Quadratic", "GAB", "Virial", "Virial")
 
 
 def strat_bounds():
